@@ -25,6 +25,7 @@ import PyTough.Proofs.InconRewrite
 import PyTough.Proofs.InconFixpoint
 import PyTough.Proofs.InconMore1
 import PyTough.Proofs.InconMore2
+import PyTough.Proofs.InconMore3
 
 namespace Props.C13
 open Py Model Model.Incon Model.Names Proofs Proofs.Incon
@@ -499,25 +500,47 @@ example : HeaderStable .fortran exTimed false := by
 
 /-! ### the text of the file: universal newlines -/
 
-/-- **Line ends do not matter** (`_partial`: the lines are assumed `CleanLine` — some text without
-    `'\n'`/`'\r'` followed by one `'\n'` — which is decidable on the written file).
+theorem header_types : HeaderTypes theSpecs (fieldAt theSpecs.headerLong 0) (fieldAt theSpecs.headerLong 1)
+    (fieldAt theSpecs.headerLong 2) (fieldAt theSpecs.headerLong 3) :=
+  ⟨by decide +kernel, by decide +kernel, by decide +kernel, by decide +kernel, by decide +kernel⟩
+
+/-- **Every written line is clean**: for a well-formed `x`, each line `write` emits is some text
+    without `'\n'` or `'\r'` followed by exactly one `'\n'` (numbers print as digits, sign, `.`, `e`,
+    blanks; a name accepted by `valid_blockname` consists of characters of the three generated
+    tables, none of which is a line end) — so the lines can be recovered from the text. -/
+theorem written_lines_clean (x : Incon Val) (nvars : Option Nat) (reset : Bool)
+    (hwf : InconWF x nvars) {file : List Str} (hw : write theSpecs x reset = .ok file) :
+    ∀ l ∈ file, CleanLine l :=
+  write_clean layout_ok timing_ok timing_toughreact_ok header_ok header_types x nvars reset hwf hw
+
+/-- **Line ends do not matter** (`_partial` only through `InconWF`, as `incon_roundtrip_partial`).
     The text of the written file (`file.flatten`) is split by text-mode reading (`splitLines`:
     `"\r\n"` and `'\r'` are translated to `'\n'`, then the text is cut after each `'\n'`) into
     exactly the lines `write` produced, and so is the same text with every `'\n'` replaced by
     `"\r\n"` (`crlf`, a file that went through a DOS tool) or by `'\r'` (`crOnly`); hence `read` of
     any of the three texts returns `canon x reset`. -/
 theorem read_any_line_ends_partial (rf : ReadFn) (x : Incon Val) (nvars : Option Nat) (check reset : Bool)
-    (hwf : InconWF x nvars) {file : List Str} (hw : write theSpecs x reset = .ok file)
-    (hclean : ∀ l ∈ file, CleanLine l) :
+    (hwf : InconWF x nvars) {file : List Str} (hw : write theSpecs x reset = .ok file) :
     splitLines file.flatten = file ∧
     read rf theSpecs TOUGH2 nvars check (splitLines file.flatten) = .ok (canon rf x reset) ∧
     read rf theSpecs TOUGH2 nvars check (splitLines (crlf file.flatten)) = .ok (canon rf x reset) ∧
     read rf theSpecs TOUGH2 nvars check (splitLines (crOnly file.flatten)) = .ok (canon rf x reset) := by
-  obtain ⟨h1, h2, h3⟩ := splitLines_clean file hclean
+  obtain ⟨h1, h2, h3⟩ := splitLines_clean file (written_lines_clean x nvars reset hwf hw)
   have h := incon_roundtrip_partial rf x nvars check reset hwf hw
   rw [h1, h2, h3]
   exact ⟨rfl, h, h, h⟩
 
+/-- the second generation too: the object read from the CRLF text is written as the original lines -/
+theorem write_fixpoint_any_line_ends_partial (rf : ReadFn) (x : Incon Val) (nvars : Option Nat) (check reset : Bool)
+    (hwf : InconWF x nvars) (hv : ValuesFit x reset) (hh : HeaderStable rf x reset) {file : List Str}
+    (hw : write theSpecs x reset = .ok file) :
+    ∃ y, read rf theSpecs TOUGH2 nvars check (splitLines (crlf file.flatten)) = .ok y ∧
+      write theSpecs (y.mapVals pvalToVal) reset = .ok file := by
+  obtain ⟨y, h1, h2⟩ := incon_write_fixpoint_values_partial rf x nvars check reset hwf hv hh hw
+  rw [(splitLines_clean file (written_lines_clean x nvars reset hwf hw)).2.1]
+  exact ⟨y, h1, h2⟩
+
+-- the example file (written from `exIncon`, which satisfies `InconWF`) has clean lines
 example : ∀ l ∈ ["INCON\n".toList, "ab1 7         31.000000000e-01\n".toList,
      "-2.6000000000000e+031.0000000000000e-100\n".toList, "\n".toList, "\n".toList], CleanLine l := by
   intro l hl
@@ -531,9 +554,10 @@ example : ∀ l ∈ ["INCON\n".toList, "ab1 7         31.000000000e-01\n".toList
 example : crlf "a\n\nb\n".toList = "a\r\n\r\nb\r\n".toList ∧ crOnly "a\n\nb\n".toList = "a\r\rb\r".toList := by decide
 
 /-
-  The theorems work on the list of lines (`write` returns them, `read` takes them); that the text
-  of the file splits back into exactly these lines (`splitLines`, universal newlines) is part of
-  the model tied by the correspondence, not proved.  On the real code the second generation is
+  The core theorems work on the list of lines (`write` returns them, `read` takes them);
+  `read_any_line_ends_partial` shows that the text of the file splits back into exactly these lines
+  (`splitLines`, universal newlines) for `\n`, `\r\n` and `\r` line ends.  That `splitLines` is what
+  Python's text mode does is part of the model tied by the correspondence.  On the real code the second generation is
   compared byte for byte with the first by the oracle and with the model (through an exact model
   of `float()` rounding, `pvalToDouble`) by the correspondence facet `incon_rewrite` on every run.
 -/
